@@ -5,10 +5,10 @@
    and early exits of UnionConstraint.intersect / UnionConstraint.union — on the == / != fragment of the single-valued
    reading ([Fc]); the union level is proved for any class of members on which the member-level meet and join are exact
    (Proofs/GenericUnion.v), so extending the fragment only needs member-level facts.  Not proved: the substring operators
-   (finding D35 lives there), the extras reading at union level, and the containment/overlap answers; those are decided
+   (finding D35 lives there) and the containment/overlap answers; those are decided
    by correspondence (model = implementation, structurally, on every generated pair) and by the oracle. *)
 From Coq Require Import List Bool String.
-From PC Require Import Base.Result Model.Generic Proofs.GenericProofs Proofs.GenericUnion.
+From PC Require Import Base.Result Model.Generic Proofs.GenericProofs Proofs.GenericUnion Proofs.GenericUnionX Proofs.GenericExtras.
 Import ListNotations.
 
 (* full statement, kept visible *)
@@ -83,13 +83,13 @@ Theorem C16_union_level_intersect : forall x (P : gs -> Prop),
   (forall mx l a, P (SMulti mx l) -> In a l -> P (SAtom a)) ->
   forall l other r, Forall P l -> (match other with GS s => P s | GU l' => Forall P l' end) ->
   union_intersect l other = Ok r -> sat r x = existsb (fun s => gs_sat s x) l && sat other x.
-Proof. exact union_intersect_exact. Qed.
+Proof. exact GenericUnion.union_intersect_exact. Qed.
 Print Assumptions C16_union_level_intersect.
 Theorem C16_union_level_union : forall x (P : gs -> Prop),
   (forall a b u, P a -> P b -> gs_union a b = Ok u -> sat u x = gs_sat a x || gs_sat b x) ->
   forall l other r, l <> [] -> Forall P l -> (match other with GS s => P s | GU l' => Forall P l' /\ l' <> [] end) ->
   union_union l other = Ok r -> sat r x = existsb (fun s => gs_sat s x) l || sat other x.
-Proof. exact union_union_exact. Qed.
+Proof. exact GenericUnion.union_union_exact. Qed.
 Print Assumptions C16_union_level_union.
 Example C16_fragment_example :
   exists a b, parse_g false "!=linux, !=win32 || ==cygwin" = Ok a /\ parse_g false "darwin || linux" = Ok b /\ Fc a /\ Fc b.
@@ -98,3 +98,20 @@ Proof.
   - split; [|discriminate]. repeat constructor.
   - split; [|discriminate]. repeat constructor.
 Qed.
+
+(* Proved: the extras reading (multi-valued: '== v' holds when f v is among the active extras, f any function - the name
+   normalisation applied at evaluation time), every shape, on the == / != clauses of 'extra' ([XFc]: clauses of the extra
+   class, conjunctions without two clauses on one value).  The union level is Proofs/GenericUnionX.v, derived from the
+   single-valued file by renaming the evaluation functions (tools/gen_generic_x.py) and checked by coqc like any other file. *)
+Theorem C16x_intersect_exact : forall f act a b r, XFc a -> XFc b -> g_intersect a b = Ok r -> cxs f act r = cxs f act a && cxs f act b.
+Proof. exact xg_intersect. Qed.
+Print Assumptions C16x_intersect_exact.
+Theorem C16x_union_exact : forall f act a b r, XFc a -> XFc b -> g_union a b = Ok r -> cxs f act r = cxs f act a || cxs f act b.
+Proof. exact xg_union. Qed.
+Print Assumptions C16x_union_exact.
+(* [cxs] with the identity is the model's own extras evaluation *)
+Lemma axs_id act a : eqne a = true -> axs (fun v => v) act a = atom_xsat a act.
+Proof. unfold axs, atom_xsat. destruct (aop a); reflexivity. Qed.
+Theorem C16x_reading : forall act a, axs (fun v => v) act a = atom_xsat a act.
+Proof. intros act a. unfold axs, atom_xsat. destruct (aop a); reflexivity. Qed.
+Print Assumptions C16x_reading.
